@@ -149,6 +149,7 @@ static bool visit_cb(const mi_heap_t* heap, const mi_heap_area_t* area, void* bl
 }
 
 void Exec::op_visit(const Op& op) {
+  if (walk_unreliable) { count(C_EXCLUDED); return; }
   int h = (int)op.num("h", 1); if (h < 1 || h >= NHEAPS || !m.heaps[h].alive) return; Hp& H = m.heaps[h];
   if (H.pending_remote) { mi_heap_collect(H.h, false); H.pending_remote = false; }
   VisitCtx c; c.stop = (long)op.snum("stop", -1); c.heap = H.h;
@@ -198,6 +199,7 @@ void Exec::op_visit(const Op& op) {
 
 // census: walk every heap of this thread and (when enabled) the abandoned segments: every live block exactly once, nothing else
 void Exec::op_census(const Op& op) {
+  if (walk_unreliable) { count(C_EXCLUDED); return; }
   std::vector<VisitRec> all; std::vector<int> from;   // from: heap index or 0 for abandoned
   for (int h = 1; h < NHEAPS; h++) { if (!m.heaps[h].alive) continue; Hp& H = m.heaps[h]; if (H.pending_remote) { mi_heap_collect(H.h, false); H.pending_remote = false; }
     VisitCtx c; c.heap = H.h; mi_heap_visit_blocks(H.h, true, &visit_cb, &c); for (auto& v : c.blocks) { all.push_back(v); from.push_back(h); } }
